@@ -115,7 +115,7 @@ func checkC15(p *Program, r *Result) {
 	spec := sourceSpec()
 	R := p.reachSet(spec)
 	scope := p.scopeFn(spec, R)
-	cfg := errFlowCfg{rule: "C15.b", inScope: scope, allowClassify: true, forbidEOF: true}
+	cfg := errFlowCfg{rule: "C15.b", inScope: scope, allowClassify: true, forbidEOF: true, passThrough: repositioningCall}
 	fns := sortedFuncs(readerScope(p))
 	for _, fn := range fns {
 		r.Funcs[funcName(fn)] = true
